@@ -16,14 +16,16 @@ TASK_TIMEOUT = 300
 RULE = ("a scenario is one world of 2 or 3 phased VCFs with up to 16 chromosomes; every chromosome carries one tuple of phasings "
         "(TLC-enumerated by Gen_C11: all diploid pairs over 1-3 sites with phase sets {unphased,1,2}, with homozygous/missing "
         "records, 4-5 sites with one vs two phase sets, single blocks of 6-7 sites, diploid triples, triploid pairs over 2-3 sites, "
-        "tetraploid pairs over 2 sites; plus seeded random tuples with up to 12 sites, 4 phase sets, interleaved phase sets, "
+        "tetraploid pairs over 2 sites, diploid pairs over 2 sites with alleles 0-2; plus seeded random tuples with up to 12 sites, 4 phase sets, interleaved phase sets, "
         "near-identical and identical phasings) and one TLC-enumerated group element (a haplotype permutation per file and phase "
         "set). `run_compare` is executed on the files as generated (PS / HP / implicit-PS encodings) and on the re-listed files; "
         "both runs are judged against the definitions and against each other. Non-trivial = some chromosome has an intersection "
         "block with Hamming distance > 0 and the group element is not the identity on a phase set present in the files")
 ASSUMPTIONS = [
     "TLC evaluates the brute-force definitions of Compare.tla (minimum over all haplotype correspondences / correspondence sequences)",
-    "bi-allelic heterozygous variants only (compare_block documents haplotype strings over {0,1}); multi-allelic sites are outside the checked domain",
+    "the definitions are judged on bi-allelic variants (compare_block documents haplotype strings over {0,1}); worlds with multi-allelic "
+    "variants (compare opens its inputs with mav=True) are judged only by the clauses that need no further definition: Returns, "
+    "IntersectionBlocks, GenotypeDiffsAreDefinition, SwitchFlipIdentity, ZeroForIdentical, PermutationInvariance",
     "polyploid switch errors and switch/flip minima are evaluated with the recurrences SwCol/SFCol, which MC_Compare proves equal "
     "to the brute-force minimum over all correspondence sequences only for ploidy 2 (<= 5-6 sites), 3 (<= 2-3 sites), 4 (<= 2 sites)",
     "for ploidy > 2 any minimum-cost switch/flip decomposition is accepted (the definition does not single one out); the identity "
@@ -72,8 +74,8 @@ def design_mc(ctx):
 
 
 # ---------------------------------------------------------------------------------------------- scenarios
-def _gen(ctx, P, N, NF, A, B, C="{}", holes=False, stride=1, gstride=1):
-    consts = {"P": P, "N": N, "NF": NF, "BlkA": A, "BlkB": B, "BlkC": C, "Holes": "TRUE" if holes else "FALSE",
+def _gen(ctx, P, N, NF, A, B, C="{}", holes=False, stride=1, gstride=1, na=2):
+    consts = {"P": P, "N": N, "NF": NF, "NA": na, "BlkA": A, "BlkB": B, "BlkC": C, "Holes": "TRUE" if holes else "FALSE",
               "Stride": stride, "Offset": ctx.seed % stride, "GStride": gstride}
     lines = tlc.generate("Gen_C11", consts, timeout=3000, xmx="8g")
     ins = [x["F"] for x in lines if x["k"] == "in"]
@@ -94,13 +96,13 @@ def _is_identity_on(F, g):
 ENCS = ["PS", "HP", "PS0"]
 
 
-def _batch(scs, p, nf, items, rng, src):
+def _batch(scs, p, nf, items, rng, src, mav=False):
     """items: list of (F, g).  Pack KCHROM chromosomes per world."""
     for i in range(0, len(items), KCHROM):
         part = items[i:i + KCHROM]
         enc0 = [rng.choice(ENCS) for _ in range(nf)]
         enc1 = list(enc0) if rng.random() < 0.5 else [rng.choice(ENCS) for _ in range(nf)]
-        scs.append({"p": p, "nf": nf, "src": src, "enc0": enc0, "enc1": enc1,
+        scs.append({"p": p, "nf": nf, "src": src, "mav": mav, "enc0": enc0, "enc1": enc1,
                     "chroms": [{"F": F, "g": g} for F, g in part]})
 
 
@@ -126,8 +128,12 @@ def _rand_perm(rng, p):
     return x
 
 
-def _rand_tuple(rng, p, nf, n, maxblk, kind):
-    het = [[(m >> k) & 1 for k in range(p)] for m in range(1, 2 ** p - 1)]
+def _rand_tuple(rng, p, nf, n, maxblk, kind, na=2):
+    if na == 2:
+        het = [[(m >> k) & 1 for k in range(p)] for m in range(1, 2 ** p - 1)]
+    else:
+        import itertools
+        het = [list(t) for t in itertools.product(range(na), repeat=p) if len(set(t)) > 1]
     def rnd_phasing():
         A = []
         contiguous = rng.random() < 0.6
@@ -191,7 +197,7 @@ def scenarios(ctx):
     def add(name, p, nf, per, *a, **kw):
         ins, gs = _gen(ctx, p, *a, **kw)
         notes[name] = {"tuples": len(ins), "group_elements": len(gs)}
-        _batch(scs, p, nf, _combine(ins, gs, rng, per), rng, name)
+        _batch(scs, p, nf, _combine(ins, gs, rng, per), rng, name, mav=kw.get("na", 2) > 2)
 
     S012 = "{0, 1, 2}"
     per = 1 if q else 2
@@ -209,6 +215,7 @@ def scenarios(ctx):
     add("p3_n2_blocks", 3, 2, 1, 2, 2, "{0, 1}", "{0, 1}", stride=16 if q else 1)
     add("p3_n3_single", 3, 2, 1, 3, 2, "{1}", "{1}", stride=64 if q else 4)
     add("p4_n2_single", 4, 2, 1, 2, 2, "{1}", "{1}", stride=128 if q else 8, gstride=7)
+    add("d2_n2_multiallelic", 2, 2, 1, 2, 2, "{1}", "{1}", na=3, stride=4 if q else 1)
     ctx.notes["tlc_enumerated"] = notes
     # ---- seeded random, beyond the enumeration bound ----
     nr = 120 if q else 1500
@@ -221,7 +228,13 @@ def scenarios(ctx):
             kind = rng.choice(["random", "near", "near", "same"])
             items.append(_rand_tuple(rng, p, nf, n, rng.randint(1, 4), kind))
         _batch(scs, p, nf, items, rng, "random")
+    nm = 10 if q else 100
+    for i in range(nm):
+        items = [_rand_tuple(rng, 2, 2, rng.randint(2, 6), rng.randint(1, 2), rng.choice(["random", "near", "same"]), na=3)
+                 for _ in range(4)]
+        _batch(scs, 2, 2, items, rng, "random_multiallelic", mav=True)
     ctx.notes["random_worlds"] = nr
+    ctx.notes["random_multiallelic_worlds"] = nm
     return scs
 
 
@@ -240,18 +253,18 @@ def _apply(F, g):
     return out
 
 
-def _records(chrom, ci, f, A, enc, p):
+def _records(chrom, ci, f, A, enc, p, mav=False):
     """VCF records of file f for one chromosome.  site s (1-based) -> POS 10*s."""
     recs = []
     ids = sorted({s["b"] for s in A if s["b"] > 0 and s["a"]})
     implicit = ids[0] if (enc == "PS0" and ids) else None
     for k, s in enumerate(A, start=1):
         a, b = s["a"], s["b"]
-        base = {"chrom": chrom, "pos": 10 * k, "ref": "A", "alt": "C"}
+        base = {"chrom": chrom, "pos": 10 * k, "ref": "A", "alt": "C,G" if mav else "C"}
         if not a:
             if (k + f + ci) % 2 == 0:
                 continue  # no record
-            base["alt"] = "G"  # same position, another ALT allele: not a common variant
+            base["alt"] = "G,T" if mav else "G"  # same position, other ALT allele(s): not a common variant
             a = [0] * (p - 1) + [1]
             b = 0
         het = any(x != a[0] for x in a)
@@ -297,7 +310,7 @@ def _units(txt, p):
     return int(r) if abs(v - r) < 1e-6 and r >= 0 else -1
 
 
-def _run(tmp, tag, p, nf, chroms, Fs, encs):
+def _run(tmp, tag, p, nf, chroms, Fs, encs, mav=False):
     """Write the VCFs for the given chromosomes, run compare, parse all outputs.
     Returns (rows, agree, bed, multi, exc)."""
     from wv.world import write_vcf
@@ -308,7 +321,7 @@ def _run(tmp, tag, p, nf, chroms, Fs, encs):
     for f in range(nf):
         recs = []
         for ci in chroms:
-            recs.extend(_records(f"c{ci:02d}", ci, f, Fs[ci][f], encs[f], p))
+            recs.extend(_records(f"c{ci:02d}", ci, f, Fs[ci][f], encs[f], p, mav))
         path = os.path.join(tmp, f"{tag}_{f}.vcf")
         write_vcf(path, ["s1"], [(n, 1000) for n in names], recs, fmt_keys=("GT", "PS", "HP"), info_keys=(), filters=())
         files.append(path)
@@ -326,7 +339,8 @@ def _run(tmp, tag, p, nf, chroms, Fs, encs):
         if isinstance(e, (KeyboardInterrupt, MemoryError)):
             raise
         tb = traceback.extract_tb(e.__traceback__)
-        exc = {"exc": type(e).__name__, "where": tb[-1].name if tb else "", "msg": str(e)[:200]}
+        named = [fr.name for fr in tb if not fr.name.startswith("<")]
+        exc = {"exc": type(e).__name__, "where": named[-1] if named else "", "msg": str(e)[:200]}
     rows, agree, bed, multi = {}, {}, {}, {}
     def lines(path):
         if not os.path.exists(path):
@@ -365,7 +379,7 @@ def _run(tmp, tag, p, nf, chroms, Fs, encs):
     return rows, agree, bed, multi, exc
 
 
-def _events(run, p, nf, chroms, Fs, res):
+def _events(run, p, nf, chroms, Fs, res, mav=False):
     rows, agree, bed, multi, exc = res
     evs = []
     for ci in chroms:
@@ -378,7 +392,7 @@ def _events(run, p, nf, chroms, Fs, res):
                         evs.append({"ev": "RunFailed", "run": run, "chrom": ci, "exc": "MissingRow", "where": f"pair {i},{j}"})
                     continue
                 row, lrow = rows[key]
-                evs.append({"ev": "Pair", "run": run, "chrom": ci, "i": i + 1, "j": j + 1, "p": p,
+                evs.append({"ev": "Pair", "run": run, "chrom": ci, "i": i + 1, "j": j + 1, "p": p, "mav": mav,
                             "F": [Fs[ci][i], Fs[ci][j]], "row": row, "lrow": lrow, "aux": p == 2,
                             "bed": bed.get(key, []), "agree": agree.get(key, [])})
         if nf > 2 and p == 2 and (exc is None or cn in multi):
@@ -387,7 +401,7 @@ def _events(run, p, nf, chroms, Fs, res):
 
 
 def drive(sc):
-    p, nf = sc["p"], sc["nf"]
+    p, nf, mav = sc["p"], sc["nf"], bool(sc.get("mav"))
     root = os.path.join(os.environ.get("WV_SCRATCH", "/var/tmp/whverif"), "work")
     os.makedirs(root, exist_ok=True)
     tmp = tempfile.mkdtemp(prefix="c11-", dir=root)
@@ -398,15 +412,15 @@ def drive(sc):
         allc = list(range(len(F0)))
         per = {}  # (chromosome, run) -> events
         for run, Fs, encs in ((0, F0, sc["enc0"]), (1, F1, sc["enc1"])):
-            res = _run(tmp, f"r{run}", p, nf, allc, Fs, encs)
+            res = _run(tmp, f"r{run}", p, nf, allc, Fs, encs, mav)
             if res[4] is None:
                 for ci in allc:
-                    per[(ci, run)] = _events(run, p, nf, [ci], Fs, res)
+                    per[(ci, run)] = _events(run, p, nf, [ci], Fs, res, mav)
                 continue
             # the batch failed: attribute the failure, chromosome by chromosome
             for ci in allc:
-                res = _run(tmp, f"r{run}c{ci}", p, nf, [ci], Fs, encs)
-                per[(ci, run)] = _events(run, p, nf, [ci], Fs, res)
+                res = _run(tmp, f"r{run}c{ci}", p, nf, [ci], Fs, encs, mav)
+                per[(ci, run)] = _events(run, p, nf, [ci], Fs, res, mav)
                 if res[4] is not None:
                     per[(ci, run)].append({"ev": "RunFailed", "run": run, "chrom": ci, "exc": res[4]["exc"],
                                            "where": res[4]["where"], "msg": res[4]["msg"]})
@@ -504,6 +518,11 @@ def _single_match_class(events, p, key):
 
 def signature(sc, events, clause):
     p, nf = sc["p"], sc["nf"]
+    if sc.get("mav"):
+        fails = [e for e in events if e.get("ev") == "RunFailed"]
+        if clause == "Returns" and fails:
+            return f"ploidy={p} files={nf} multi-allelic variants: {fails[0]['exc']} in {fails[0]['where']}"
+        return f"ploidy={p} files={nf} multi-allelic variants"
     if clause == "Returns":
         fails = [e for e in events if e.get("ev") == "RunFailed"]
         if fails:
